@@ -66,6 +66,40 @@ def ring1(ctx, b):
                 os.unlink(out)
 
 
+def ring1_systematic(ctx, b):
+    """every schedule with at most `bound` preemptions (under three fixed policies for the choices at blocking points)"""
+    prog = build.compile_prog("sched", "pool_drv", ["pool_drv.c", "vs_sched.c"], extra_flags=["-I", os.path.join(build.REPO, "mtbl")])
+    wd = ctx.sub("ring1s")
+    plan = [(1, 2, 1, 1, 2), (2, 2, 1, 1, 2), (2, 2, 0, 1, 2), (2, 3, 1, 1, 1), (2, 3, 0, 1, 1), (1, 2, 1, 2, 1), (2, 2, 0, 2, 1)]
+    if not ctx.quick():
+        plan += [(2, 3, 1, 1, 2), (2, 3, 0, 1, 2), (3, 3, 0, 1, 2), (2, 2, 1, 2, 2), (3, 4, 1, 1, 1)]
+    for n, (P, J, ordered, NC, bound) in enumerate(plan):
+        out = os.path.join(wd, "s%d.ndjson" % n)
+        p = subprocess.run([prog, out, "systematic", str(P), str(J), str(ordered), str(NC), str(bound)], stdout=subprocess.PIPE, stderr=subprocess.PIPE, text=True, timeout=3000)
+        m = __import__("re").search(r"systematic: (\d+) schedules", p.stderr)
+        nsch = int(m.group(1)) if m else 0
+        ctx.add("schedules", nsch)
+        ctx.add("systematic_schedules", nsch)
+        cfgd = {"max": P, "jobs": J, "clients": NC, "ordered": bool(ordered), "preemption_bound": bound}
+        ok, depth, r = core.validate_trace(out, "Trace_Pool", timeout=3000)
+        if p.returncode != 0 or not ok:
+            recs = [json.loads(x) for x in open(out)]
+            ex = core.split_execs(recs)
+            last = ex[-1] if ex else []
+            if p.returncode == 0 and not ok:
+                acc = 0
+                for e in ex:
+                    if acc + len(e) >= depth:
+                        last = e
+                        break
+                    acc += len(e)
+            why = "scheduler verdict: deadlock (no thread enabled)" if p.returncode == 3 else ("ended with status %s: %s" % (p.returncode, p.stderr[-300:]) if p.returncode != 0 else "events not explained by PoolAbs at line %s" % depth)
+            core.report(ctx, "thread pool, systematic schedules %s: %s" % (json.dumps(cfgd), why), {"kind": "trace", "module": "Trace_Pool", "trace": last, "line": len(last), "cfg": cfgd})
+        else:
+            ctx.add("traces_validated_against_impl", nsch)
+        os.unlink(out)
+
+
 def ring2(ctx, b):
     """pooled writers under the scheduler: file identical to the pool-less file"""
     rng = ctx.rng
@@ -187,6 +221,7 @@ def run(ctx):
     b = build.build("sched")
     tlc_models(ctx)
     ring1(ctx, b)
+    ring1_systematic(ctx, b)
     ring2(ctx, b)
     ring3(ctx, b)
     real_threads(ctx)
@@ -194,7 +229,7 @@ def run(ctx):
            "traces_validated_against_impl": ctx.cov.get("traces_validated_against_impl", 0),
            "evaluations": ctx.cov.get("schedules", 0), "distinct_nontrivial": ctx.cov.get("schedules", 0), "exhaustive": False}
     ctx.assumptions += ["interleavings are explored at pthread-call granularity plus the point after each unlock; complete only if the code between two such points is race-free (C14)",
-                        "schedules are seeded (uniform and preemption-bounded with up to 3 forced preemptions), not enumerated exhaustively"]
+                        "pool alone: every schedule with at most 1-2 preemptions is enumerated for the small configurations (three fixed policies at blocking points); otherwise schedules are seeded (uniform, and with up to 3 forced preemptions)"]
     return core.finish(ctx, LEVEL, cov, rule="schedules = complete pool life cycles under the deterministic scheduler (pool alone: PoolAbs events; pooled writers: file identity; pooled sorters: abstract sorter), distinct seeds")
 
 
